@@ -86,9 +86,10 @@ type EvalOut struct {
 }
 
 type evalOpts struct {
-	rawArray bool // (unused placeholder for symmetry)
-	ctx      context.Context
-	noMap    bool
+	rawArray   bool // (unused placeholder for symmetry)
+	ctx        context.Context
+	noMap      bool
+	zeroRunner bool // a Runner the host declared itself (`new(formula.Runner)`) instead of asking NewRunner for one
 }
 
 // evaluate parses src, builds data, evaluates once in a fresh runner.
@@ -103,6 +104,9 @@ func evaluate(src string, data val.V, opts *evalOpts) *EvalOut {
 	out.Nodes = obs.CountNodes(sc.Expression)
 	env := &val.Env{Log: &out.Log}
 	r := formula.NewRunner()
+	if opts != nil && opts.zeroRunner {
+		r = new(formula.Runner)
+	}
 	if opts == nil || !opts.noMap {
 		m, _ := val.Build(data, env).(map[string]interface{})
 		out.Map = m
